@@ -134,6 +134,10 @@ func (d *destination) unlock(now, end common.Timestamp, dry bool) (
 	if err != nil {
 		return 0, err
 	}
+	// float64 rounding can yield more than what is left (left > 2^53)
+	if amount > left {
+		amount = left
+	}
 
 	if !dry {
 		err = d.move(now, amount)
